@@ -15,7 +15,7 @@ Print Assumptions C05_at_most_k_best_first.
 (** a filter that matches nothing yields the empty result *)
 Theorem C05_empty_filter_match_is_empty : forall s rq ms,
   hq_filters rq <> [] -> hy_meta s = Some ms -> msearch ms (hq_filters rq) (hq_groups rq) = Some [] ->
-  hy_search s rq = HOk {| ho_full := []; ho_n := O; ho_weak := false; ho_cands := Some []; ho_vecids := []; ho_txtids := [] |}.
+  hy_search s rq = HOk {| ho_full := []; ho_n := O; ho_weak := false; ho_cands := Some []; ho_vecids := []; ho_txtids := []; ho_modal_known := true |}.
 Proof.
   intros s rq ms Hf Hm Hs. unfold hy_search. destruct (hq_filters rq) as [|f fs]; [contradiction|].
   rewrite Hm, Hs. reflexivity.
